@@ -141,7 +141,7 @@ def run_property(prop, tier, repo, seed, only=None):
     except ModuleNotFoundError:
         print("no rule module for %s" % prop, file=sys.stderr)
         return 2
-    passes = [("core", "", False)]
+    passes = [(os.environ.get("VERIF_REPLAY_CONFIG", "core") if only else "core", "", False)]
     if tier == "thorough" and not only:
         passes = [("full", "", False), ("pagable", "pagable/", True), ("nodebug", "nodebug/", True)]
     for config, prefix, lenient in passes:
@@ -253,7 +253,12 @@ def main():
     only = None
     if a.replay:
         v = json.load(open(a.replay))
-        only = (v["rule"], v["key"])
+        key = v["key"]
+        for pre, cfg in (("pagable/", "pagable"), ("nodebug/", "nodebug")):
+            if key.startswith(pre):
+                key = key[len(pre):]
+                os.environ["VERIF_REPLAY_CONFIG"] = cfg
+        only = (v["rule"], key)
     props = PROPS if a.prop == "all" else [a.prop]
     rc = 0
     for p in props:
